@@ -26,6 +26,11 @@ def handle (opname : String) (a : Args) : Option String :=
       let c : Cmd := { seed := if has then some s else none, parseDraws := 1, buildDraws := 1 }
       let r := firstEvents current c
       pure (ok (toString (if r.1 then 1 else 0) ++ " " ++ toString r.2))) a
+  | "phase3" => run (do
+      let s ← int; let has ← bool
+      let c : Cmd := { seed := if has then some s else none, parseDraws := 1, buildDraws := 1 }
+      let r := firstEvents current c
+      pure (ok (toString (if r.1 then 1 else 0) ++ " " ++ toString r.2 ++ " " ++ toString (seedEvents current c)))) a
   | _ => none
 
 end Cnfgen.Driver.Cli
